@@ -72,6 +72,7 @@ def run(res, tier, seed):
     if thorough:
         vlib.model_check(res, contlib.SD, 'MCAggregator', 'Aggregator_P3b.cfg', timeout=1500)
     batch_replay(res, thorough)
+    contlib.replay_aggregator(res, 'C13', [('AggrCore_2.cfg', 2, 2), ('AggrCore_3.cfg', 3, 1)] + ([('AggrCore_3x2.cfg', 3, 2)] if thorough else []))
     scen = SCEN + ([('f%d' % k, 'pqfault:%d' % k, 'id', ['push:5,push:2,pop', 'push:7,push:3,pop', 'pop,pop,push:4']) for k in range(6, 12)] if thorough else [])
     contlib.run_scenarios(res, 'C13', 'TracePQ', scen, 400 if not thorough else 6000, seed, 'concurrent_priority_queue')
     res.assumptions.append('fault = the k-th element copy construction throws (the element assignment inside try_pop is assumed non-throwing, see DESIGN 4 C13)')
